@@ -260,7 +260,7 @@ func init() {
 		Quick: 400, Thorough: 6000,
 		CaseCap: 10 * time.Minute, // a compact build takes ~1 s on an idle machine but minutes on a badly oversubscribed one
 		Required: []string{"kind_basic", "kind_basic-mutable", "kind_compact", "distances_compared", "routes_checked", "limit_cut", "limit_exact_boundary",
-			"direction_matters", "decrease_key_needed", "closed_way", "point_twice_on_way", "unusable_way", "searchto_reached", "searchto_beyond_limit",
+			"direction_matters", "decrease_key_needed", "dense_network", "closed_way", "point_twice_on_way", "unusable_way", "searchto_reached", "searchto_beyond_limit",
 			"origin_midway", "origin_building", "search_strict", "search_reaches_revisited_point", "weighting_hops", "weighting_car", "weighting_bus", "weighting_simple-highway"},
 		Run: c30Run,
 	})
@@ -270,6 +270,11 @@ func c30Run(c *core.Ctx) {
 	r := c.R
 	loopy := c.Index%3 == 1
 	net := c30Network(r.Fork(), loopy)
+	if c.Index%5 == 4 {
+		net = c30DenseNetwork(r.Fork())
+		loopy = false
+		c.Count("dense_network")
+	}
 	// a compact build costs ~1 s of several goroutines: 1 case in 16, not at the
 	// same offset in every child batch
 	kind := core.Pick(r, []string{"basic", "basic", "basic-mutable"})
@@ -479,6 +484,13 @@ func c30Run(c *core.Ctx) {
 			}
 			if r.Chance(0.2) {
 				limits = append(limits, 0)
+			}
+			if net.dense {
+				// the order in which a world returns the segments leaving a point varies from call to
+				// call, and the search must be right for every order: repeat the unlimited search
+				for rep := 0; rep < 10; rep++ {
+					limits = append(limits, 1e9)
+				}
 			}
 			k.witness = map[string]any{"network": net.String(), "world": kind, "weights": wt.name, "origin": oid.String(), "origin_kind": o.kind}
 			if o.kind == "unconnected" {
